@@ -1116,3 +1116,25 @@ func TestVerifC19Probe(t *testing.T) {
 	t.Logf("legacy-overwrite (tool between) prompt=%q", run(2048, []api.Message{{Role: "user", Content: "first"}, {Role: "tool", Content: "42"}, {Role: "user", Content: "second"}}))
 	t.Logf("legacy-overwrite (system) prompt=%q", run(2048, []api.Message{{Role: "system", Content: "A"}, {Role: "user", Content: ""}, {Role: "system", Content: "B"}, {Role: "user", Content: "hi"}}))
 }
+
+// TestVerifC19Trees (Tie 1) writes the parse trees that the REAL template.Parse builds for the four
+// harness templates as Lean terms (trees.txt: one `name := term` per line); the check regenerates
+// lean/OllamaVerif/Generated/C19_Trees.lean from it and Tie/C19.lean proves by `rfl` that the trees
+// the property theorems talk about are these.
+func TestVerifC19Trees(t *testing.T) {
+	f, err := os.Create(zzverif.OutDir() + "/trees.txt")
+	if err != nil {
+		t.Fatal(err)
+	}
+	defer f.Close()
+	for i, name := range []string{"header", "legacy", "dflt", "inPlace"} {
+		tm, err := template.Parse(c19TemplateSrc[i])
+		if err != nil {
+			t.Fatal(err)
+		}
+		if ast, why := c19Serialise(tm); ast == "X" {
+			t.Fatalf("harness template %s outside the subset: %s", name, why)
+		}
+		fmt.Fprintf(f, "%s := %s\n", name, c19LeanList(tm.Tree.Root))
+	}
+}
